@@ -15,7 +15,7 @@ CHECK_TEXT = {
         "design_ref": "DESIGN.md section 5 (C12)",
         "note": ("Trusted: Verus/Z3, Kani/CBMC; io::Write modelled as an appending writer, io::Read as a reliable in-memory reader; "
                  "std models listed in evidence.trusted_base; Plugin opaque, Session a typed-slot stand-in. NOT under contract (stated in evidence, covered by the "
-                 "bounded run only): Path/OsStr, LinkedList/BTree*/Dash* collections, Cow, RefCell, atomics, [T;N]::decode, SmallVec, BitVec, "
+                 "bounded run only): Path/OsStr, LinkedList/BTree*/Dash* collections, atomics, [T;N]::decode, SmallVec, BitVec, "
                  "the Decode impls of Interned<..> (shared interner state)."),
         "technique": "contract-based deductive verification: Verus (Z3) on mechanically extracted real impls + Kani function-level full-domain harnesses",
     },
